@@ -666,3 +666,132 @@ package tabular
 //@   ensures [registered-render] result == nil && when == 2 ==> grewBy(heap[callbackSet.renderTime][fldloc(setLoc(owner, target), 2)], old(heap[callbackSet.renderTime][fldloc(setLoc(owner, target), 2)]), heap[[]PropertyCallback], old(heap[[]PropertyCallback]), theNewCallback) @C13
 //@   ensures [registered-postcell] result == nil && when == 3 ==> grewBy(heap[callbackSet.postCellRenderTime][fldloc(setLoc(owner, target), 3)], old(heap[callbackSet.postCellRenderTime][fldloc(setLoc(owner, target), 3)]), heap[[]PropertyCallback], old(heap[[]PropertyCallback]), theNewCallback) @C13
 //@   ensures [refused-changes-nothing] result != nil ==> heap[callbackSet.addTime] === old(heap[callbackSet.addTime]) && heap[callbackSet.renderTime] === old(heap[callbackSet.renderTime]) && heap[callbackSet.preCellRenderTime] === old(heap[callbackSet.preCellRenderTime]) && heap[callbackSet.postCellRenderTime] === old(heap[callbackSet.postCellRenderTime]) @C13
+
+//@ -- ---------------------------------------------------------------------
+//@ -- render-time callbacks (C13, C11, C14)
+//@ -- ---------------------------------------------------------------------
+
+//@ -- per-owner ghost bookkeeping of one render pass: stage = rank of the last callback site that ran for
+//@ -- this owner, fires = how many sites ran for it
+//@ ghost var stage (Array Loc Int)
+//@ ghost var fires (Array Loc Int)
+//@ ghost var stageR (Array Loc Int)
+//@ ghost var firesR (Array Loc Int)
+
+//@ func (*Row).invokeRenderCallbacks
+//@   tags C13,C11,C09
+//@   requires [row] row != nil && (row.cells != nil ==> cellsOK(row)) && cellsOwn(row) && rowProps(row) && (row.inTable != nil ==> row.inTable == t)
+//@   requires [table] t != nil && tblOwn(t) && tblProps(t) && colsOK(t) && colsOwn(t)
+//@   requires [errors-go-to-table] dyn(ec) == type[*ErrorContainer] && ec.(*ErrorContainer) == t.ErrorContainer && row.ErrorContainer == t.ErrorContainer
+//@   assigns row.properties, elems(row.cells).properties, new(valueProperty), t.ErrorContainer.errors_, elemscap(t.ErrorContainer.errors_), ghost cbErrN, ghost cbErrLog, ghost stage, ghost fires, ghost stageR, ghost firesR
+//@   ensures [errors-none-lost-none-duplicated] cbErrN >= old(cbErrN) && len(t.ErrorContainer.errors_) == old(len(t.ErrorContainer.errors_)) + (cbErrN - old(cbErrN)) @C11
+//@   ensures [earlier-errors-kept] forall i int :: {old(t.ErrorContainer.errors_[i])} 0 <= i && i < old(len(t.ErrorContainer.errors_)) ==> t.ErrorContainer.errors_[i] == old(t.ErrorContainer.errors_[i]) @C11
+//@   ensures [callback-errors-in-order] forall m int :: {cbErrLog[m]} old(cbErrN) <= m && m < cbErrN ==> t.ErrorContainer.errors_[old(len(t.ErrorContainer.errors_)) + (m - old(cbErrN))] == cbErrLog[m] @C11
+//@   ensures [invariants-kept] tblOwn(t) && tblProps(t) && colsOwn(t) && cellsOwn(row) && rowProps(row) && chainsStable(old(heap[valueProperty.chain]), old(heap[valueProperty.key]), old(heap[valueProperty.val]), heap[valueProperty.chain], heap[valueProperty.key], heap[valueProperty.val], old(alloc))
+//@   ensures [errors-array] (t.ErrorContainer.errors_.arr == old(t.ErrorContainer.errors_.arr) && t.ErrorContainer.errors_.off == old(t.ErrorContainer.errors_.off) && t.ErrorContainer.errors_.cap == old(t.ErrorContainer.errors_.cap)) || fresh(t.ErrorContainer.errors_)
+//@   ensures [log-prefix] forall j int :: {cbErrLog[j]} j < old(cbErrN) ==> cbErrLog[j] === old(cbErrLog[j])
+//@   ensures [every-cell-all-sites-in-order] forall j int :: {stage[&row.cells[j]]} 0 <= j && j < len(row.cells) ==> stage[&row.cells[j]] == old(stage)[&row.cells[j]] + 8 && fires[&row.cells[j]] >= old(fires)[&row.cells[j]] + 6 @C13
+//@   ensures [row-itself-twice] stageR[row] == old(stageR)[row] + 2 && firesR[row] == old(firesR)[row] + 2 @C13
+//@   ensures [other-owners-not-touched] (forall l Loc :: {stage[l]} l.base != row.cells.arr ==> stage[l] == old(stage)[l]) && (forall l Loc :: {fires[l]} l.base != row.cells.arr ==> fires[l] == old(fires)[l]) && (forall l Loc :: {stageR[l]} l != row ==> stageR[l] == old(stageR)[l]) && (forall l Loc :: {firesR[l]} l != row ==> firesR[l] == old(firesR)[l]) @C13
+//@   call invokePropertyCallbacks#1 before assert [row-pre] arg0 === row.rowItselfCallbacks && arg1 == CB_AT_RENDER_PRECELL && arg2 === mkiface(type[*Row], box(row)) && stageR[row] == old(stageR)[row] @C13
+//@   call invokePropertyCallbacks#1 after ghost stageR[row] = old(stageR)[row] + 1
+//@   call invokePropertyCallbacks#1 after ghost firesR[row] = firesR[row] + 1
+//@   call invokePropertyCallbacks#2 before assert [table-pre-cell] arg0 === t.tableCellCallbacks && arg1 == CB_AT_RENDER_PRECELL && arg2 === mkiface(type[*Cell], box(ptr)) && stage[ptr] < old(stage)[ptr] + 1 @C13
+//@   call invokePropertyCallbacks#2 after ghost stage[ptr] = old(stage)[ptr] + 1
+//@   call invokePropertyCallbacks#2 after ghost fires[ptr] = fires[ptr] + 1
+//@   call invokePropertyCallbacks#3 before assert [column-pre-cell] arg0 === col.cellCallbacks && arg1 == CB_AT_RENDER_PRECELL && arg2 === mkiface(type[*Cell], box(ptr)) && stage[ptr] < old(stage)[ptr] + 2 @C13
+//@   call invokePropertyCallbacks#3 after ghost stage[ptr] = old(stage)[ptr] + 2
+//@   call invokePropertyCallbacks#3 after ghost fires[ptr] = fires[ptr] + 1
+//@   call invokePropertyCallbacks#4 before assert [row-pre-cell] arg0 === row.rowCellCallbacks && arg1 == CB_AT_RENDER_PRECELL && arg2 === mkiface(type[*Cell], box(ptr)) && stage[ptr] < old(stage)[ptr] + 3 @C13
+//@   call invokePropertyCallbacks#4 after ghost stage[ptr] = old(stage)[ptr] + 3
+//@   call invokePropertyCallbacks#4 after ghost fires[ptr] = fires[ptr] + 1
+//@   call invokePropertyCallbacks#5 before assert [table-render] arg0 === t.tableCellCallbacks && arg1 == CB_AT_RENDER && arg2 === mkiface(type[*Cell], box(ptr)) && stage[ptr] < old(stage)[ptr] + 4 @C13
+//@   call invokePropertyCallbacks#5 after ghost stage[ptr] = old(stage)[ptr] + 4
+//@   call invokePropertyCallbacks#5 after ghost fires[ptr] = fires[ptr] + 1
+//@   call invokePropertyCallbacks#6 before assert [cell-render] arg0 === ptr.callbacks && arg1 == CB_AT_RENDER && arg2 === mkiface(type[*Cell], box(ptr)) && stage[ptr] < old(stage)[ptr] + 5 @C13
+//@   call invokePropertyCallbacks#6 after ghost stage[ptr] = old(stage)[ptr] + 5
+//@   call invokePropertyCallbacks#6 after ghost fires[ptr] = fires[ptr] + 1
+//@   call invokePropertyCallbacks#7 before assert [row-post-cell] arg0 === row.rowCellCallbacks && arg1 == CB_AT_RENDER_POSTCELL && arg2 === mkiface(type[*Cell], box(ptr)) && stage[ptr] < old(stage)[ptr] + 6 @C13
+//@   call invokePropertyCallbacks#7 after ghost stage[ptr] = old(stage)[ptr] + 6
+//@   call invokePropertyCallbacks#7 after ghost fires[ptr] = fires[ptr] + 1
+//@   call invokePropertyCallbacks#8 before assert [column-post-cell] arg0 === col.cellCallbacks && arg1 == CB_AT_RENDER_POSTCELL && arg2 === mkiface(type[*Cell], box(ptr)) && stage[ptr] < old(stage)[ptr] + 7 @C13
+//@   call invokePropertyCallbacks#8 after ghost stage[ptr] = old(stage)[ptr] + 7
+//@   call invokePropertyCallbacks#8 after ghost fires[ptr] = fires[ptr] + 1
+//@   call invokePropertyCallbacks#9 before assert [table-post-cell] arg0 === t.tableCellCallbacks && arg1 == CB_AT_RENDER_POSTCELL && arg2 === mkiface(type[*Cell], box(ptr)) && stage[ptr] < old(stage)[ptr] + 8 @C13
+//@   call invokePropertyCallbacks#9 after ghost stage[ptr] = old(stage)[ptr] + 8
+//@   call invokePropertyCallbacks#9 after ghost fires[ptr] = fires[ptr] + 1
+//@   call invokePropertyCallbacks#10 before assert [row-post] arg0 === row.rowItselfCallbacks && arg1 == CB_AT_RENDER_POSTCELL && arg2 === mkiface(type[*Row], box(row)) && stageR[row] == old(stageR)[row] + 1 @C13
+//@   call invokePropertyCallbacks#10 after ghost stageR[row] = old(stageR)[row] + 2
+//@   call invokePropertyCallbacks#10 after ghost firesR[row] = firesR[row] + 1
+//@   loop#1 invariant -1 <= rangeindex && rangeindex < len(row.cells) && row.cells === old(row.cells) && t.ErrorContainer == old(t.ErrorContainer) && row.ErrorContainer == t.ErrorContainer && row.inTable == old(row.inTable)
+//@   loop#1 invariant tblOwn(t) && tblProps(t) && colsOK(t) && colsOwn(t) && cellsOwn(row) && rowProps(row) && (row.cells != nil ==> cellsOK(row))
+//@   loop#1 invariant cbErrN >= old(cbErrN) && len(t.ErrorContainer.errors_) == old(len(t.ErrorContainer.errors_)) + (cbErrN - old(cbErrN))
+//@   loop#1 invariant forall i int :: {old(t.ErrorContainer.errors_[i])} 0 <= i && i < old(len(t.ErrorContainer.errors_)) ==> t.ErrorContainer.errors_[i] == old(t.ErrorContainer.errors_[i])
+//@   loop#1 invariant forall m int :: {cbErrLog[m]} old(cbErrN) <= m && m < cbErrN ==> t.ErrorContainer.errors_[old(len(t.ErrorContainer.errors_)) + (m - old(cbErrN))] == cbErrLog[m]
+//@   loop#1 invariant chainsStable(old(heap[valueProperty.chain]), old(heap[valueProperty.key]), old(heap[valueProperty.val]), heap[valueProperty.chain], heap[valueProperty.key], heap[valueProperty.val], old(alloc)) && alloc >= old(alloc)
+//@   loop#1 invariant (t.ErrorContainer.errors_.arr == old(t.ErrorContainer.errors_.arr) && t.ErrorContainer.errors_.off == old(t.ErrorContainer.errors_.off) && t.ErrorContainer.errors_.cap == old(t.ErrorContainer.errors_.cap)) || fresh(t.ErrorContainer.errors_)
+//@   loop#1 invariant forall j int :: {stage[&row.cells[j]]} 0 <= j && j <= rangeindex ==> stage[&row.cells[j]] == old(stage)[&row.cells[j]] + 8 && fires[&row.cells[j]] >= old(fires)[&row.cells[j]] + 6
+//@   loop#1 invariant forall j int :: {stage[&row.cells[j]]} rangeindex < j && j < len(row.cells) ==> stage[&row.cells[j]] == old(stage)[&row.cells[j]] && fires[&row.cells[j]] == old(fires)[&row.cells[j]]
+//@   loop#1 invariant stageR[row] == old(stageR)[row] + 1 && firesR[row] == old(firesR)[row] + 1
+//@   loop#1 invariant forall j int :: {cbErrLog[j]} j < old(cbErrN) ==> cbErrLog[j] === old(cbErrLog[j])
+//@   loop#1 invariant (forall l Loc :: {stage[l]} l.base != row.cells.arr ==> stage[l] == old(stage)[l]) && (forall l Loc :: {fires[l]} l.base != row.cells.arr ==> fires[l] == old(fires)[l]) && (forall l Loc :: {stageR[l]} l != row ==> stageR[l] == old(stageR)[l]) && (forall l Loc :: {firesR[l]} l != row ==> firesR[l] == old(firesR)[l])
+//@   loop#1 decreases len(row.cells) - rangeindex
+
+//@ -- propsOK(t): every property chain and callback list hanging off the table is well-formed (input invariant A-chains)
+//@ pred propsOK(t *ATable) = tblProps(t) && colsOwn(t) && (forall i int :: {t.rows[i]} 0 <= i && i < len(t.rows) ==> rowProps(t.rows[i]) && cellsOwn(t.rows[i])) && (t.headerRow != nil ==> rowProps(t.headerRow) && cellsOwn(t.headerRow))
+
+//@ ghost var stageT (Array Loc Int)
+//@ ghost var stageC (Array Loc Int)
+
+//@ func (*ATable).InvokeRenderCallbacks
+//@   tags C13,C11,C14,C09
+//@   requires [table] WF(t) && propsOK(t)
+//@   assigns heap[propertyImpl.properties], new(valueProperty), t.ErrorContainer.errors_, elemscap(t.ErrorContainer.errors_), ghost cbErrN, ghost cbErrLog, ghost stage, ghost fires, ghost stageR, ghost firesR, ghost stageT, ghost stageC
+//@   ensures [invariant] WF(t) && propsOK(t) @C09,C14
+//@   ensures [errors-none-lost-none-duplicated] cbErrN >= old(cbErrN) && len(t.ErrorContainer.errors_) == old(len(t.ErrorContainer.errors_)) + (cbErrN - old(cbErrN)) @C11
+//@   ensures [earlier-errors-kept] forall i int :: {old(t.ErrorContainer.errors_[i])} 0 <= i && i < old(len(t.ErrorContainer.errors_)) ==> t.ErrorContainer.errors_[i] == old(t.ErrorContainer.errors_[i]) @C11
+//@   ensures [callback-errors-in-order] forall m int :: {cbErrLog[m]} old(cbErrN) <= m && m < cbErrN ==> t.ErrorContainer.errors_[old(len(t.ErrorContainer.errors_)) + (m - old(cbErrN))] == cbErrLog[m] @C11
+//@   ensures [table-itself-twice] stageT[t] == old(stageT)[t] + 2 @C13
+//@   ensures [every-column-twice] forall i int :: {t.columns[i]} 0 <= i && i < len(t.columns) ==> stageC[t.columns[i]] == old(stageC)[t.columns[i]] + 2 @C13
+//@   ensures [every-row-once] forall i int :: {t.rows[i]} 0 <= i && i < len(t.rows) ==> stageR[t.rows[i]] == old(stageR)[t.rows[i]] + 2 @C13
+//@   ensures [every-cell-once] forall i int, j int :: {stage[&t.rows[i].cells[j]]} 0 <= i && i < len(t.rows) && 0 <= j && j < len(t.rows[i].cells) ==> stage[&t.rows[i].cells[j]] == old(stage)[&t.rows[i].cells[j]] + 8 @C13
+//@   ensures [chains] chainsStable(old(heap[valueProperty.chain]), old(heap[valueProperty.key]), old(heap[valueProperty.val]), heap[valueProperty.chain], heap[valueProperty.key], heap[valueProperty.val], old(alloc))
+//@   call invokePropertyCallbacks#1 before assert [table-pre] arg0 === t.tableItselfCallbacks && arg1 == CB_AT_RENDER_PRECELL && arg2 === mkiface(type[*ATable], box(t)) && stageT[t] == old(stageT)[t] @C13
+//@   call invokePropertyCallbacks#1 after ghost stageT[t] = old(stageT)[t] + 1
+//@   call invokePropertyCallbacks#2 before assert [column-pre] arg0 === col.columnItselfCallbacks && arg1 == CB_AT_RENDER_PRECELL && arg2 === mkiface(type[*column], box(col)) && stageC[col] == old(stageC)[col] @C13
+//@   call invokePropertyCallbacks#2 after ghost stageC[col] = old(stageC)[col] + 1
+//@   call invokePropertyCallbacks#3 before assert [column-post] arg0 === col.columnItselfCallbacks && arg1 == CB_AT_RENDER_POSTCELL && arg2 === mkiface(type[*column], box(col)) && stageC[col] == old(stageC)[col] + 1 @C13
+//@   call invokePropertyCallbacks#3 after ghost stageC[col] = old(stageC)[col] + 2
+//@   call invokePropertyCallbacks#4 before assert [table-post] arg0 === t.tableItselfCallbacks && arg1 == CB_AT_RENDER_POSTCELL && arg2 === mkiface(type[*ATable], box(t)) && stageT[t] == old(stageT)[t] + 1 @C13
+//@   call invokePropertyCallbacks#4 after ghost stageT[t] = old(stageT)[t] + 2
+//@   loop#1 invariant -1 <= rangeindex && rangeindex < len(t.columns) && WF(t) && propsOK(t) && t.ErrorContainer == old(t.ErrorContainer)
+//@   loop#1 invariant cbErrN >= old(cbErrN) && len(t.ErrorContainer.errors_) == old(len(t.ErrorContainer.errors_)) + (cbErrN - old(cbErrN))
+//@   loop#1 invariant forall i int :: {old(t.ErrorContainer.errors_[i])} 0 <= i && i < old(len(t.ErrorContainer.errors_)) ==> t.ErrorContainer.errors_[i] == old(t.ErrorContainer.errors_[i])
+//@   loop#1 invariant forall m int :: {cbErrLog[m]} old(cbErrN) <= m && m < cbErrN ==> t.ErrorContainer.errors_[old(len(t.ErrorContainer.errors_)) + (m - old(cbErrN))] == cbErrLog[m]
+//@   loop#1 invariant chainsStable(old(heap[valueProperty.chain]), old(heap[valueProperty.key]), old(heap[valueProperty.val]), heap[valueProperty.chain], heap[valueProperty.key], heap[valueProperty.val], old(alloc)) && alloc >= old(alloc)
+//@   loop#1 invariant (t.ErrorContainer.errors_.arr == old(t.ErrorContainer.errors_.arr) && t.ErrorContainer.errors_.off == old(t.ErrorContainer.errors_.off) && t.ErrorContainer.errors_.cap == old(t.ErrorContainer.errors_.cap)) || fresh(t.ErrorContainer.errors_)
+//@   loop#1 invariant stageT[t] == old(stageT)[t] + 1 && stage === old(stage) && fires === old(fires) && stageR === old(stageR) && firesR === old(firesR)
+//@   loop#1 invariant forall k int :: {t.columns[k]} 0 <= k && k < len(t.columns) ==> stageC[t.columns[k]] == old(stageC)[t.columns[k]] + (k <= rangeindex ? 1 : 0)
+//@   loop#1 decreases len(t.columns) - rangeindex
+//@   loop#2 invariant -1 <= rangeindex && rangeindex < len(t.rows) && WF(t) && propsOK(t) && t.ErrorContainer == old(t.ErrorContainer)
+//@   loop#2 invariant cbErrN >= old(cbErrN) && len(t.ErrorContainer.errors_) == old(len(t.ErrorContainer.errors_)) + (cbErrN - old(cbErrN))
+//@   loop#2 invariant forall i int :: {old(t.ErrorContainer.errors_[i])} 0 <= i && i < old(len(t.ErrorContainer.errors_)) ==> t.ErrorContainer.errors_[i] == old(t.ErrorContainer.errors_[i])
+//@   loop#2 invariant forall m int :: {cbErrLog[m]} old(cbErrN) <= m && m < cbErrN ==> t.ErrorContainer.errors_[old(len(t.ErrorContainer.errors_)) + (m - old(cbErrN))] == cbErrLog[m]
+//@   loop#2 invariant chainsStable(old(heap[valueProperty.chain]), old(heap[valueProperty.key]), old(heap[valueProperty.val]), heap[valueProperty.chain], heap[valueProperty.key], heap[valueProperty.val], old(alloc)) && alloc >= old(alloc)
+//@   loop#2 invariant (t.ErrorContainer.errors_.arr == old(t.ErrorContainer.errors_.arr) && t.ErrorContainer.errors_.off == old(t.ErrorContainer.errors_.off) && t.ErrorContainer.errors_.cap == old(t.ErrorContainer.errors_.cap)) || fresh(t.ErrorContainer.errors_)
+//@   loop#2 invariant stageT[t] == old(stageT)[t] + 1
+//@   loop#2 invariant forall k int :: {t.columns[k]} 0 <= k && k < len(t.columns) ==> stageC[t.columns[k]] == old(stageC)[t.columns[k]] + 1
+//@   loop#2 invariant forall k int :: {t.rows[k]} 0 <= k && k < len(t.rows) ==> stageR[t.rows[k]] == old(stageR)[t.rows[k]] + (k <= rangeindex ? 2 : 0)
+//@   loop#2 invariant forall k int, j int :: {stage[&t.rows[k].cells[j]]} 0 <= k && k < len(t.rows) && 0 <= j && j < len(t.rows[k].cells) ==> stage[&t.rows[k].cells[j]] == old(stage)[&t.rows[k].cells[j]] + (k <= rangeindex ? 8 : 0)
+//@   loop#2 decreases len(t.rows) - rangeindex
+//@   loop#3 invariant -1 <= rangeindex && rangeindex < len(t.columns) && WF(t) && propsOK(t) && t.ErrorContainer == old(t.ErrorContainer)
+//@   loop#3 invariant cbErrN >= old(cbErrN) && len(t.ErrorContainer.errors_) == old(len(t.ErrorContainer.errors_)) + (cbErrN - old(cbErrN))
+//@   loop#3 invariant forall i int :: {old(t.ErrorContainer.errors_[i])} 0 <= i && i < old(len(t.ErrorContainer.errors_)) ==> t.ErrorContainer.errors_[i] == old(t.ErrorContainer.errors_[i])
+//@   loop#3 invariant forall m int :: {cbErrLog[m]} old(cbErrN) <= m && m < cbErrN ==> t.ErrorContainer.errors_[old(len(t.ErrorContainer.errors_)) + (m - old(cbErrN))] == cbErrLog[m]
+//@   loop#3 invariant chainsStable(old(heap[valueProperty.chain]), old(heap[valueProperty.key]), old(heap[valueProperty.val]), heap[valueProperty.chain], heap[valueProperty.key], heap[valueProperty.val], old(alloc)) && alloc >= old(alloc)
+//@   loop#3 invariant (t.ErrorContainer.errors_.arr == old(t.ErrorContainer.errors_.arr) && t.ErrorContainer.errors_.off == old(t.ErrorContainer.errors_.off) && t.ErrorContainer.errors_.cap == old(t.ErrorContainer.errors_.cap)) || fresh(t.ErrorContainer.errors_)
+//@   loop#3 invariant stageT[t] == old(stageT)[t] + 1
+//@   loop#3 invariant forall k int :: {t.columns[k]} 0 <= k && k < len(t.columns) ==> stageC[t.columns[k]] == old(stageC)[t.columns[k]] + (k <= rangeindex ? 2 : 1)
+//@   loop#3 invariant forall k int :: {t.rows[k]} 0 <= k && k < len(t.rows) ==> stageR[t.rows[k]] == old(stageR)[t.rows[k]] + 2
+//@   loop#3 invariant forall k int, j int :: {stage[&t.rows[k].cells[j]]} 0 <= k && k < len(t.rows) && 0 <= j && j < len(t.rows[k].cells) ==> stage[&t.rows[k].cells[j]] == old(stage)[&t.rows[k].cells[j]] + 8
+//@   loop#3 decreases len(t.columns) - rangeindex
